@@ -57,10 +57,20 @@ CONTENT = {
     "": "",
     "ku": "__path__ = __import__('pkgutil').extend_path(__path__, __name__)\n",
     "kr": "__import__('pkg_resources').declare_namespace(__name__)\n",
+    # further spellings of the pkg-style namespace declarations (all contain the exact statements the docs give)
+    "ku2": 'try:\n    __import__("pkg_resources").declare_namespace(__name__)\nexcept ImportError:\n    __path__ = __import__("pkgutil").extend_path(__path__, __name__)\n',
+    "ku3": "if True:\n    __path__ = __import__('pkgutil').extend_path(__path__, __name__)\n",
+    "ku4": '"""Namespace package."""\n# every portion ships this file\n__path__ = __import__("pkgutil").extend_path(__path__, __name__)\nx = 1\n',
+    "kr2": "try:\n    __import__('pkg_resources').declare_namespace(__name__)\nexcept ImportError:\n    pass\n",
+    "kr3": '# namespace package\n\n__import__("pkg_resources").declare_namespace(__name__)\n',
+    # the spelling of the pkgutil documentation (not recognised by Griffe's regular expressions: known finding)
+    "kf": "from pkgutil import extend_path\n__path__ = extend_path(__path__, __name__)\n",
     "b": "\x00\x01junk",
     "t": "not a module\n",
 }
-PKG_STYLE = {"ku", "kr"}
+PKG_MODES = {"ku": ("ku", "ku", "ku2", "ku3", "ku4", "kf"), "kr": ("kr", "kr", "kr2", "kr3", "ku2")}
+PKG_STYLE = {code for codes in PKG_MODES.values() for code in codes}
+LINK = "->"  # a file node "->name" is a directory symlink to the sibling directory `name`
 
 
 # ----------------------------------------------------------------------------------------------- strategy
@@ -81,8 +91,8 @@ def layouts(max_depth: int = 3):
             d["__init__.py"] = draw(st.sampled_from(["x", "x", ""]))
         if init in ("pyi", "py+pyi"):
             d["__init__.pyi"] = "x"
-        if init in PKG_STYLE:
-            d["__init__.py"] = init
+        if init in PKG_MODES:
+            d["__init__.py"] = draw(st.sampled_from(PKG_MODES[init]))
         names = draw(st.lists(st.sampled_from(NAME_POOL), unique=True, min_size=min_names, max_size=3))
         for n in names:
             forms = draw(st.lists(st.sampled_from(forms_sub), unique=True, min_size=1, max_size=3))
@@ -125,6 +135,13 @@ def layouts(max_depth: int = 3):
                 d["py.typed"] = ""
             else:
                 d["README.txt"] = "t"
+        real_dirs = [k for k, v in d.items() if isinstance(v, dict) and k != "__pycache__"]
+        if real_dirs and draw(st.integers(0, 3)) == 0:
+            # a directory symlink to a sibling sub-package / namespace directory: one directory under two names
+            # (never a loop: targets are siblings, never ancestors)
+            free = [n for n in (*NAMES, *ODD_NAMES, "compat") if n not in d]
+            if free:
+                d[draw(st.sampled_from(free))] = LINK + draw(st.sampled_from(real_dirs))
         return d
 
     @st.composite
@@ -133,7 +150,7 @@ def layouts(max_depth: int = 3):
         d: dict = {}
         if mode == "native":
             kinds = ["dir:none"] * 6 + ["dir:py", "dir:pyi", "py", "absent"]
-        elif mode in PKG_STYLE:
+        elif mode in PKG_MODES:
             kinds = [f"dir:{mode}"] * 6 + ["absent"]
         elif mode == "regular":
             kinds = ["dir:py"] * 5 + ["dir:py+pyi"] * 2 + ["dir:none", "dir:pyi", "py", "absent"]
@@ -194,6 +211,8 @@ def _write_tree(base: Path, tree: dict) -> None:
     for name, node in tree.items():
         if isinstance(node, dict):
             _write_tree(base / name, node)
+        elif node.startswith(LINK):
+            os.symlink(node[len(LINK) :], base / name, target_is_directory=True)
         else:
             (base / name).write_text(CONTENT.get(node, node), encoding="utf8")
 
@@ -481,11 +500,18 @@ def all_trees(layout: dict) -> list[dict]:
     return trees
 
 
+def _follow(parent: dict, node):
+    """The directory a node stands for (follows a directory symlink to its sibling), or None for files."""
+    if isinstance(node, str) and node.startswith(LINK):
+        node = parent.get(node[len(LINK) :])
+    return node if isinstance(node, dict) else None
+
+
 def _subdir(tree: dict, rel: tuple):
     node = tree
     for name in rel:
-        node = node.get(name) if isinstance(node, dict) else None
-        if not isinstance(node, dict):
+        node = _follow(node, node.get(name))
+        if node is None:
             return None
     return node
 
@@ -502,7 +528,7 @@ def pyi_only_collisions(layout: dict) -> list[tuple[int, tuple]]:
             return False
         if f"{rel[-1]}.py" in parent:
             return True
-        return not files_only and isinstance(parent.get(rel[-1]), dict)
+        return not files_only and _follow(parent, parent.get(rel[-1])) is not None
 
     out = []
     for i, tree in enumerate(trees):
@@ -513,6 +539,19 @@ def pyi_only_collisions(layout: dict) -> list[tuple[int, tuple]]:
                 if any(present(other, rel, files_only=(j == i)) for j, other in enumerate(trees)):
                     out.append((i, rel))
     return out
+
+
+def kf_tops(layout: dict) -> list[int]:
+    """Indices of the trees whose top-level `__init__.py` uses the `from pkgutil import extend_path` spelling."""
+    return [i for i, t in enumerate(all_trees(layout)) if isinstance(t.get(TOP), dict) and t[TOP].get("__init__.py") == "kf"]
+
+
+def steer_kf(layout: dict) -> tuple[dict, int]:
+    hits = kf_tops(layout)
+    trees = all_trees(layout)
+    for i in hits:
+        trees[i][TOP]["__init__.py"] = "ku"
+    return layout, len(hits)
 
 
 def steer_pyi_only(layout: dict) -> tuple[dict, int]:
@@ -531,10 +570,13 @@ def steer_pyi_only(layout: dict) -> tuple[dict, int]:
 
 
 def _walk_dirs(tree: dict, prefix: tuple = ()):
+    """(relative name parts, directory) for the tree and every directory below it, under every name it can be
+    reached by (directory symlinks are followed)."""
     yield prefix, tree
     for name, node in tree.items():
-        if isinstance(node, dict):
-            yield from _walk_dirs(node, (*prefix, name))
+        sub = _follow(tree, node)
+        if sub is not None:
+            yield from _walk_dirs(sub, (*prefix, name))
 
 
 def _modname(filename: str) -> str | None:
@@ -574,7 +616,7 @@ def features(layout: dict) -> set[str]:
         names_here = set()
         for prefix, sub in _walk_dirs(d):
             for name, node in sub.items():
-                if isinstance(node, dict):
+                if _follow(sub, node) is not None:
                     if name != "__pycache__":
                         names_here.add((*prefix, name))
                 else:
@@ -593,6 +635,11 @@ def features(layout: dict) -> set[str]:
             regular = "__init__.py" in sub and sub["__init__.py"] not in PKG_STYLE
             for name, node in sub.items():
                 stem = name.split(".", 1)[0]
+                if isinstance(node, str) and node.startswith(LINK):
+                    node = _follow(sub, node)
+                    if node is None:
+                        continue
+                    f.add("dir-symlink:" + ("package" if "__init__.py" in node else "namespace-dir"))
                 if stem in ODD_NAMES and (isinstance(node, dict) or name == f"{stem}.py"):
                     f.add("name:" + {"0a": "digit-first", "a-b": "dash", "class": "keyword"}.get(stem, "non-ascii") + (":dir" if isinstance(node, dict) else ":module"))
                 if isinstance(node, dict):
